@@ -6,8 +6,7 @@ use super::common::*;
 use crate::drive::*;
 use crate::model::*;
 use crate::run::*;
-use crate::{ensure, fail, gen};
-use proptest::prelude::*;
+use crate::{ensure, fail};
 
 // ---------------------------------------------------------------------------------------------
 // C07
@@ -214,6 +213,19 @@ pub fn c07(tier: Tier) -> Check {
                 oracle: c07_oracle,
                 exhaustive: true,
             }),
+            Box::new(RandomLeg {
+                name: "sdes-chunk-and-item-builders",
+                cases: tier.pick(20_000, 300_000),
+                make: Box::new(|| super::sizes::part_case(true)),
+                oracle: super::sizes::c07_part_oracle,
+            }),
+            Box::new(SweepLeg {
+                name: "sdes-item-length-limits",
+                n: super::sizes::ITEM_SWEEP_N,
+                at: Box::new(super::sizes::item_sweep),
+                oracle: super::sizes::c07_part_oracle,
+                exhaustive: true,
+            }),
             Box::new(SweepLeg {
                 name: "every-kind-x-every-padding",
                 n: 64 * KIND_TEMPLATES as u64,
@@ -263,7 +275,3 @@ pub fn kind_template(k: usize) -> PacketSpec {
     }
 }
 
-#[allow(dead_code)]
-fn _unused(_: &dyn Fn() -> BoxedStrategy<u8>) {
-    let _ = gen::u8b;
-}
